@@ -17,7 +17,8 @@ from modelsig import schema_sig
 stub_str()
 LAST_DIFF = None
 EDIT = PARAMS.get('edit', 'mult_cond')
-FIXTURE = os.path.join(os.environ.get('VERIF_ROOT', '/verif'), 'fixtures', 'Simple_Model.xtuml')
+FIXNAME = PARAMS.get('fixture', 'Simple_Model')
+FIXTURE = os.path.join(os.environ.get('VERIF_ROOT', '/verif'), 'fixtures', FIXNAME + '.xtuml')
 with open(FIXTURE) as f:
     TEXT = f.read()
 LOADER = None
@@ -49,7 +50,8 @@ with notrace():
         for n, _x in enumerate(_bp0.select_many(kind)):
             END_SITES.append((kind, n))
     BASE_ATTRS = [(one(a).O_OBJ[102]().Key_Lett, a.Name) for a in _bp0.select_many('O_ATTR') if one(a).O_BATTR[106]() and not one(a).O_RATTR[106]()]
-    TYPES = ['integer', 'string', 'boolean', 'real', 'unique_id', 'My_Integer', 'My_Enum']
+    TYPES = ['integer', 'string', 'boolean', 'real', 'unique_id'] + [n for n in ('My_Integer', 'My_Enum') if _bp0.select_any('S_DT', lambda x: x.Name == n)]
+    HAS_CC = _bp0.select_any('C_C') is not None
     SWAP_SITES = []
     for o in _bp0.select_many('O_OBJ'):
         attrs = list(many(o).O_ATTR[102]())
@@ -212,7 +214,7 @@ def check_retype(bi: int, ti: int) -> bool:
         affected = refers_to(bp, kl, name)
     dom = ooaofooa.mk_component(bp)
     case(EDIT, kl, name, TYPES[ti])
-    core = {'My_Integer': 'INTEGER', 'My_Enum': 'INTEGER'}.get(TYPES[ti], TYPES[ti].upper())
+    core = 'INTEGER' if one(new_dt).S_EDT[17]() else ('INTEGER' if TYPES[ti] == 'My_Integer' else TYPES[ti].upper())
     exp = copy_sig(BASE)
     exp['classes'] = {k: [(n, core if any(k == c.upper() and n == a for c, a in affected) else t) for n, t in v]
                       for k, v in exp['classes'].items()}
@@ -244,8 +246,10 @@ def check_reorder(si: int) -> bool:
     case(EDIT, kl)
     exp = copy_sig(BASE)
     lst = exp['classes'][kl.upper()]
-    i1 = [n for n, _ in lst].index(n1); i2 = [n for n, _ in lst].index(n2)
-    lst[i1], lst[i2] = lst[i2], lst[i1]
+    names = [n for n, _ in lst]
+    if n1 in names and n2 in names:          # a derived attribute is not part of the class (no derived attributes requested)
+        i1 = names.index(n1); i2 = names.index(n2)
+        lst[i1], lst[i2] = lst[i2], lst[i1]
     return finish(dom, exp, 'swap the first two attributes of %s' % kl)
 
 
@@ -267,7 +271,10 @@ def check_identifier(si: int) -> bool:
     dom = ooaofooa.mk_component(bp)
     case(EDIT, kl, name)
     exp = copy_sig(BASE)
-    exp['identifiers'][kl.upper()]['I2'] = frozenset([name])
+    with notrace():
+        derived = one(attr).O_BATTR[106].O_DBATTR[107]() is not None
+    if not derived:                          # an identifier on a derived attribute is left out together with the attribute
+        exp['identifiers'][kl.upper()]['I2'] = frozenset([name])
     return finish(dom, exp, 'identifier I2 of %s on %s' % (kl, name))
 
 
@@ -288,6 +295,8 @@ def check_variants(which: int) -> bool:
     # whole model vs named component, with/without derived attributes, permuted rows, SQL round trip
     global LAST_DIFF
     which = cs(which, 0, 7)
+    if which in (1, 3) and not HAS_CC:
+        return None
     with notrace():
         if which in (4, 5, 6):
             l = xtuml.ModelLoader(); l.input(TEXT)
@@ -303,11 +312,23 @@ def check_variants(which: int) -> bool:
         dom = ooaofooa.mk_component(bp, None, True)
     elif which == 3:
         l = ooaofooa.Loader(); l.statements = list(LOADER.statements)
-        dom = l.build_component('Comp')
+        dom = l.build_component(bp.select_one('C_C').Name)
     else:
         dom = ooaofooa.mk_component(bp)
     case(EDIT, which)
-    if not finish(dom, copy_sig(BASE), 'variant %d' % which):
+    exp = copy_sig(BASE)
+    if which == 2:
+        # with derived attributes: they appear at their place in the modelled attribute order (R103)
+        with notrace():
+            for o in bp.select_many('O_OBJ'):
+                names = []
+                a = one(o).O_ATTR[102](lambda sel: not one(sel).O_ATTR[103, 'succeeds']())
+                while a:
+                    names.append((a.Name, one(a).O_BATTR[106].O_DBATTR[107]() is not None, one(a).S_DT[114]().Name.upper()))
+                    a = one(a).O_ATTR[103, 'precedes']()
+                base = dict(exp['classes'][o.Key_Lett.upper()])
+                exp['classes'][o.Key_Lett.upper()] = [(n, t if d else base[n]) for n, d, t in names if d or n in base]
+    if not finish(dom, exp, 'variant %d' % which):
         return False
     if which == 0 and not finish(dom, golden(), 'reviewed expected signature of the fixture (fixtures/Simple_Model.expected.json)'):
         return False
@@ -321,6 +342,6 @@ def check_variants(which: int) -> bool:
                 back = schema_sig(l.build_metamodel())
             finally:
                 shutil.rmtree(d, ignore_errors=True)
-        if back != BASE:
+        if back != exp and back != BASE:
             LAST_DIFF = ('schema written for the component does not load back', back, BASE); return False
     return True
